@@ -260,6 +260,40 @@ Proof.
 Qed.
 Print Assumptions C01_history_toggle.
 
+(* an argument changed through Processor.set (also a key INSIDE a dict / list valued argument) is
+   honoured by the next run of that object: the run is judged against the configuration in which the
+   first model of that name has the new value at that path — read back through the path it is the
+   value that was set, every other argument is as before — while every position keeps its name and
+   its switch (so exactly the same positions execute), and every other group is untouched *)
+Theorem C01_history_setarg :
+  forall inplace st pre o ov mid m n post p ms i m0,
+    nth_error (exec_ops inplace st pre) o = Some p ->
+    (forall y, In y mid -> writes inplace y o = false) ->
+    get p (o_group ov) = Some ms -> first_named (o_model ov) ms = Some i -> nth_error ms i = Some m0 ->
+    let p' := apply_override p ov in
+    let m1 := set_args m0 (upd_kw (o_key ov) (set_in (o_path ov) (o_value ov)) (args m0)) in
+    hist_runs inplace st (pre ++ OSetArg o ov :: mid ++ ORun o m n :: post) =
+      hist_runs inplace st (pre ++ OSetArg o ov :: mid) ++
+      {| r_obj := o; r_cfg := p'; r_mode := m; r_steps := n |} ::
+      hist_runs inplace (apply_op inplace (exec_ops inplace st (pre ++ OSetArg o ov :: mid)) (ORun o m n)) post /\
+    (exists ms', get p' (o_group ov) = Some ms' /\ nth_error ms' i = Some m1) /\
+    (forall g', g' <> o_group ov -> get p' g' = get p g') /\
+    (forall debug step g' i', count_pos (trace debug p' n) step g' i' = count_pos (trace debug p n) step g' i') /\
+    name m1 = name m0 /\ enabled m1 = enabled m0 /\
+    (forall x, kw_lookup (o_key ov) (args m0) = Some x -> get_in (o_path ov) x <> None ->
+       exists y, kw_lookup (o_key ov) (args m1) = Some y /\ get_in (o_path ov) y = Some (o_value ov)) /\
+    (forall k', k' <> o_key ov -> kw_lookup k' (args m1) = kw_lookup k' (args m0)).
+Proof.
+  intros inplace st pre o ov mid m n post p ms i m0 Hp W Hg Hf Hi p' m1.
+  destruct (override_effect p ov ms i m0 Hg Hf Hi) as (A & B & C & D & E & _ & F & G).
+  split; [apply setarg_then_run; assumption|]. split.
+  - eexists. split; [exact A|]. rewrite nth_error_upd_nth_same, Hi. reflexivity.
+  - split; [exact B|]. split.
+    + intros debug step g' i'. rewrite !C01_exactly_once. fold p'. rewrite C. reflexivity.
+    + repeat split; assumption.
+Qed.
+Print Assumptions C01_history_setarg.
+
 (* a copy (deep copy of the pipeline or of its processor, pickle round trip) is a NEW object with the
    configuration of its source; whatever is then done to one of the two never shows in the other *)
 Theorem C01_history_copy_isolated :
@@ -425,3 +459,25 @@ Example ex_toggle_hyps :
   exists ms m0, nth_error (exec_ops true [ex_p] [ORun 0 (Exposure false) 1]) 0 = Some ex_p /\
                 get ex_p Phasing = Some ms /\ nth_error ms 0 = Some m0 /\ enabled m0 = false.
 Proof. eexists. eexists. repeat split; reflexivity. Qed.
+
+(* hypotheses of C01_history_setarg: an existing path inside a dict-valued argument *)
+Definition ex_light : pipeline :=
+  mk_pipeline (fun g => match g with
+                        | PhotonCollection =>
+                            Some [m_ "light" true [("a", VInt 3);
+                                                   ("opt", VDict [VList [VStr "level"; VInt 10];
+                                                                  VList [VStr "lst"; VList [VInt 1; VDict [VList [VStr "n"; VInt 2]]]]])]]
+                        | _ => None end)%string.
+Definition ex_ov : override :=
+  {| o_group := PhotonCollection; o_model := "light"; o_key := "opt";
+     o_path := [PKey "lst"; PIdx 1; PKey "n"]; o_value := VInt 7 |}%string.
+
+Example ex_setarg_hyps :
+  exists ms m0 x, get ex_light PhotonCollection = Some ms /\ first_named "light" ms = Some 0 /\
+                  nth_error ms 0 = Some m0 /\ kw_lookup "opt" (args m0) = Some x /\
+                  get_in (o_path ex_ov) x = Some (VInt 2) /\
+                  map c_args (trace false (apply_override ex_light ex_ov) 1) =
+                  [[("a", VInt 3);
+                    ("opt", VDict [VList [VStr "level"; VInt 10];
+                                   VList [VStr "lst"; VList [VInt 1; VDict [VList [VStr "n"; VInt 7]]]]])]]%string.
+Proof. do 3 eexists. repeat split; vm_compute; reflexivity. Qed.
